@@ -1,14 +1,15 @@
 import LaytheVerif.Model.Imports
 /-!
-`drv_imports [fixed]`: line protocol for the import model (C17).
+`drv_imports`: line protocol for the import model (C17).
 
 ```
 main | file a/b            start the main script / the file a/b.lay
 mark S | decl E K NAME N | acc E NAME TARGET | assign NAME N
 import a/b | importas a/b NAME | importsyms a/b sym[:ren] ... | show TAG sym NAME | show TAG field OBJ NAME
+importpkg PKG a/b NAME      `import PKG.a.b as NAME;` for a package name other than `self` (path `-` = the package itself)
 run                         run the graph, print one result line, forget the graph
 ```
-Result line: `<status>|<printed lines joined by ;>|noD19=<0/1>|starts=<file paths in start order>|steps=<n>`.
+Result line: `<status>|<printed lines joined by ;>|pkgs=<package map at the end>|starts=<file paths in start order>|steps=<n>`.
 -/
 open LaytheVerif.Imports
 
@@ -39,6 +40,8 @@ def parseStmt (ws : List String) : Option Stmt :=
       match s.splitOn ":" with
       | [a, b] => (a, some b)
       | _ => (s, none)))
+  | ["importpkg", pkg, p, name] =>
+    if h : pkg ≠ "self" then some (.importPkg ⟨pkg, h⟩ (parsePath p) name) else none
   | ["show", tag, "sym", name] => some (.emit tag (.sym name))
   | ["show", tag, "field", o, name] => some (.emit tag (.field o name))
   | _ => none
@@ -48,12 +51,12 @@ def DSt.push (d : DSt) (st : Stmt) : DSt :=
   | none => { d with main := d.main ++ [st] }
   | some p => { d with files := d.files.map fun f => if f.1 = p then (f.1, f.2 ++ [st]) else f }
 
-def runGraph (fixed : Bool) (g : Graph) (fuel : Nat) : St × Nat := Id.run do
+def runGraph (g : Graph) (fuel : Nat) : St × Nat := Id.run do
   let mut s := init g
   let mut n := 0
   for _ in [0:fuel] do
     if s.status != .running then break
-    s := step fixed g s
+    s := step g s
     n := n + 1
   return (s, n)
 
@@ -63,33 +66,33 @@ def showStatus : Status → String
   | .error c m => s!"error:{c}:{m}"
   | .panic m => s!"panic:{m}"
 
-def result (fixed : Bool) (d : DSt) : String :=
+def result (d : DSt) : String :=
   if d.bad then "bad-op" else
   let g : Graph := { main := d.main, files := d.files }
-  let (s, n) := runGraph fixed g 100000
+  let (s, n) := runGraph g 100000
   let starts := s.log.reverse.filterMap fun e => match e with
     | .start f _ => some ("/".intercalate f) | _ => none
-  s!"{showStatus s.status}|{";".intercalate s.out}|noD19={if g.noD19 then 1 else 0}|starts={",".intercalate starts}|steps={n}"
+  s!"{showStatus s.status}|{";".intercalate s.out}|pkgs={",".intercalate (s.packages.map (·.1))}|starts={",".intercalate starts}|steps={n}"
 
-partial def loop (fixed : Bool) (h out : IO.FS.Stream) (d : DSt) : IO Unit := do
+partial def loop (h out : IO.FS.Stream) (d : DSt) : IO Unit := do
   let line ← h.getLine
   if line.isEmpty then return ()
   let ws := (line.trimAscii.toString.splitOn " ").filter (· ≠ "")
   match ws with
-  | [] => loop fixed h out d
-  | ["main"] => loop fixed h out { d with cur := none }
-  | ["file", p] => loop fixed h out { d with cur := some (parsePath p), files := d.files ++ [(parsePath p, [])] }
+  | [] => loop h out d
+  | ["main"] => loop h out { d with cur := none }
+  | ["file", p] => loop h out { d with cur := some (parsePath p), files := d.files ++ [(parsePath p, [])] }
   | ["run"] =>
-    out.putStrLn (result fixed d)
+    out.putStrLn (result d)
     out.flush
-    loop fixed h out {}
+    loop h out {}
   | _ =>
     match parseStmt ws with
-    | some st => loop fixed h out (d.push st)
-    | none => loop fixed h out { d with bad := true }
+    | some st => loop h out (d.push st)
+    | none => loop h out { d with bad := true }
 
-def main (args : List String) : IO UInt32 := do
+def main (_args : List String) : IO UInt32 := do
   let stdin ← IO.getStdin
   let stdout ← IO.getStdout
-  loop (args == ["fixed"]) stdin stdout {}
+  loop stdin stdout {}
   return 0
